@@ -1051,11 +1051,15 @@ class STensor:
         return s.div(n)
 
     def max(self, *a, **k):
+        if len(a) == 1 and isinstance(a[0], STensor) and not k:  # torch.max(a, b): elementwise maximum
+            return self._ew(a[0], lambda x, y: x if compare("ge", x, y) else y)
         if a or k:
             raise Unsupported("max(dim)")
         return self._reduce(lambda x, y: x if compare("ge", x, y) else y)
 
     def min(self, *a, **k):
+        if len(a) == 1 and isinstance(a[0], STensor) and not k:  # torch.min(a, b): elementwise minimum
+            return self._ew(a[0], lambda x, y: x if compare("le", x, y) else y)
         if a or k:
             raise Unsupported("min(dim)")
         return self._reduce(lambda x, y: x if compare("le", x, y) else y)
@@ -1106,6 +1110,28 @@ class STensor:
 
     def inverse(self):
         return inverse(self)
+
+    def scatter_(self, dim, index, value, **k):
+        """self[..., index[...], ...] = value along ``dim`` (concrete integer index tensor; value scalar or tensor of index's shape)."""
+        dim = int(dim) % self.ndim
+        if list(index.shape) != [n if d != dim else index.shape[d] for d, n in enumerate(self.shape)] and index.ndim != self.ndim:
+            raise InterpError("RuntimeError", "scatter_: index rank differs from self")
+        if index.dtype.is_floating_point:
+            raise InterpError("RuntimeError", "scatter_(): Expected dtype int64 for index")
+        import itertools as _it
+        src = value if isinstance(value, STensor) else None
+        for pos in _it.product(*[range(n) for n in index.shape]):
+            k_ = simplify(index[pos].flat()[0])
+            if not isinstance(k_, int):
+                raise Unsupported("scatter_ with a symbolic index")
+            if not 0 <= k_ < self.shape[dim]:
+                raise InterpError("RuntimeError", f"index {k_} is out of bounds for dimension {dim} with size {self.shape[dim]}")
+            tgt = tuple(k_ if d == dim else pos[d] for d in range(self.ndim))
+            self[tgt] = (src[pos].flat()[0] if src is not None else value)
+        return self
+
+    def scatter(self, dim, index, value, **k):
+        return self.clone().scatter_(dim, index, value, **k)
 
     def requires_grad_(self, flag=True):
         self.requires_grad = flag
